@@ -206,6 +206,11 @@ func find(r leveldb.Reader, readOpts *opt.ReadOptions, start, end string) sorted
 	if end != "" {
 		endB = []byte(end)
 	}
+	if endB != nil && start > end {
+		// An inverted range is empty. goleveldb panics on one once
+		// tables have been compacted past level 0.
+		return &iter{it: iterator.NewEmptyIterator(nil)}
+	}
 	it := &iter{
 		it: r.NewIterator(
 			&util.Range{Start: startB, Limit: endB},
